@@ -99,6 +99,9 @@ type exportObs struct {
 	InvRe   string            `json:"inv_reimp,omitempty"`    // ... on the re-imported chain after InitChain completed
 	KV      []kvDiff          `json:"kv,omitempty"`           // raw key/value differences original vs re-imported
 	KVLeft  int               `json:"kv_left"`                // differences remaining after the known ones were patched
+	TimeNs  int64             `json:"time_ns"`                // block time of the import
+	RawOrig map[string]json.RawMessage `json:"raw_orig,omitempty"`  // exported genesis of the modules the Coq model covers
+	RawRe   map[string]json.RawMessage `json:"raw_reimp,omitempty"` // ... after the round trip
 	Sizes   map[string]int    `json:"sizes"`   // module -> bytes of exported genesis
 	Orig    map[string]string `json:"orig"`    // module -> sha256 of its exported genesis (proto-JSON) on the original chain
 	Reimp   map[string]string `json:"reimp"`   // the same after import into a fresh app and export again
@@ -502,6 +505,11 @@ func (p *pending) reimport(t *testing.T, tc tcase, fin map[string]json.RawMessag
 	eo.InvRe = invariants(cb)
 	re := cb.exportModules()
 	eo.Reimp = digestOf(re)
+	eo.TimeNs = p.now.UnixNano()
+	eo.RawOrig, eo.RawRe = map[string]json.RawMessage{}, map[string]json.RawMessage{}
+	for _, m := range []string{"epochs", "lockup"} {
+		eo.RawOrig[m], eo.RawRe[m] = p.orig[m], re[m]
+	}
 	for k, v := range p.orig {
 		if !bytes.Equal(v, re[k]) {
 			eo.Diff[k] = allDiffs(v, re[k])
